@@ -11,8 +11,8 @@
              P:P:POS:LEN:DL:HASHBYTES  put        G:P:POS:LEN  get
              HO:A:TR FileHasher::new_cached       HC drop
              H:P:POS:LEN  hash_file               X:P:POS:LEN  hash_transformed
-   output line:  <id> | <one token per op> | sd=<b> md=<b> frac=<b> hits=<n>
-     (sd/md/frac: stamp_determines_b / mtime_determines_b / preepoch_fraction_b over the worlds of the sequence;
+   output line:  <id> | <one token per op> | sd=<b> md=<b> frac=<b> sw=<b> hits=<n>
+     (sd/md/frac/sw: stamp_determines_b / mtime_determines_b / preepoch_fraction_b / stepwise_b over the worlds of the sequence;
       hits: calls answered from the cache)
      token:  "."  for world / open / close ops ("i<INO>" for c)
              "nofile" | "ok@META" (put) | "n@META" | "s:DL:HASH@META" (get)
@@ -161,5 +161,5 @@ let () = iter_lines (fun line ->
             | RPanic -> "panic"))
       | _ -> "EXN bad token " ^ tok) ops in
     let ws = List.rev !ms in
-    Printf.sprintf "%s | %s | sd=%s md=%s frac=%s hits=%d" id (String.concat " " out)
-      (sob (stamp_determines_b ws)) (sob (mtime_determines_b ws)) (sob (preepoch_fraction_b ws)) !hits)
+    Printf.sprintf "%s | %s | sd=%s md=%s frac=%s sw=%s hits=%d" id (String.concat " " out)
+      (sob (stamp_determines_b ws)) (sob (mtime_determines_b ws)) (sob (preepoch_fraction_b ws)) (sob (stepwise_b ws)) !hits)
